@@ -22,6 +22,9 @@ RICH_XSD = '''<xs:schema xmlns:xs="http://www.w3.org/2001/XMLSchema" targetNames
  <xs:simpleType name="small"><xs:restriction base="xs:integer"><xs:minInclusive value="0"/><xs:maxInclusive value="99"/></xs:restriction></xs:simpleType>
  <xs:simpleType name="ilist"><xs:list itemType="xs:int"/></xs:simpleType>
  <xs:simpleType name="u"><xs:union memberTypes="xs:date xs:boolean t:small"/></xs:simpleType>
+ <xs:simpleType name="dlist"><xs:list itemType="xs:date"/></xs:simpleType>
+ <xs:simpleType name="dlist3"><xs:restriction base="t:dlist"><xs:maxLength value="3"/></xs:restriction></xs:simpleType>
+ <xs:simpleType name="days"><xs:restriction base="t:dlist3"><xs:enumeration value="2020-01-01 2020-01-02"/><xs:enumeration value="2020-02-29"/></xs:restriction></xs:simpleType>
  <xs:complexType name="item">
   <xs:sequence>
    <xs:element name="n" type="xs:integer"/>
@@ -35,13 +38,14 @@ RICH_XSD = '''<xs:schema xmlns:xs="http://www.w3.org/2001/XMLSchema" targetNames
    <xs:element name="u" type="t:u" minOccurs="0"/>
    <xs:element name="f" type="xs:double" minOccurs="0"/>
    <xs:element name="b64" type="xs:base64Binary" minOccurs="0"/>
+   <xs:element name="days" type="t:days" minOccurs="0"/>
    <xs:element name="note" minOccurs="0" fixed="hello"><xs:complexType mixed="true"><xs:sequence>
      <xs:element name="x" type="xs:string" minOccurs="0"/></xs:sequence></xs:complexType></xs:element>
    <xs:element name="sub" type="t:item" minOccurs="0" maxOccurs="3"/>
    <xs:any namespace="##other" processContents="lax" minOccurs="0" maxOccurs="2"/>
   </xs:sequence>
   <xs:attribute name="id" type="xs:ID"/><xs:attribute name="ref" type="xs:IDREF"/>
-  <xs:attribute name="k" type="t:small"/><xs:anyAttribute namespace="##other" processContents="lax"/>
+  <xs:attribute name="k" type="t:small"/><xs:attribute name="days" type="t:days"/><xs:anyAttribute namespace="##other" processContents="lax"/>
  </xs:complexType>
  <xs:element name="root">
   <xs:complexType><xs:sequence><xs:element name="item" type="t:item" maxOccurs="unbounded">
@@ -65,6 +69,9 @@ BASE_DOCS = [
     # a fixed value on an element of mixed complex type: equal / different text
     '<t:root xmlns:t="urn:c11"><t:item><t:n>1</t:n><t:note>hello</t:note></t:item><t:item><t:n>2</t:n><t:note>bye</t:note></t:item></t:root>',
     '<t:root xmlns:t="urn:c11"><t:item><t:n>1</t:n><t:note>hello</t:note></t:item></t:root>',
+    # an enumerated list of dates restricted on two levels (the facets see the values, not their decoded representation)
+    '<t:root xmlns:t="urn:c11"><t:item days="2020-02-29"><t:n>1</t:n><t:days>2020-01-01  2020-01-02</t:days></t:item>'
+    '<t:item><t:n>2</t:n><t:days>2020-02-29</t:days></t:item></t:root>',
     # an empty sub element (content not complete) below the chunks of a lazy depth 3
     '<t:root xmlns:t="urn:c11"><t:item id="a1" k="5"><t:n>1</t:n><t:sub ref="a1"></t:sub></t:item><t:item><t:n>2</t:n></t:item></t:root>',
 ]
